@@ -12,6 +12,9 @@ is solved, in mpmath, so that (mu(q) - max(y)) / sigma(q) hits the target).  Ora
   optvalue/…                opt_func_gradient()[0] = opt_func()
   optgrad/…/richardson      opt_func_gradient()[1] = Richardson derivative of the REAL opt_func
   optgrad/…/reference       … = gradient of the reference objective
+Unsteered ladder (same evaluator, keys .../unsteered,<band>/...): trend data, LinearMean extrapolating the trend / ConstantMean next to accurately
+measured points, a ladder of query points; z, mu/sigma, variance/prior variance are what the model gives; the visited bands
+(-inf,-6], (-6,-3], (-3,0], (0,3], (3,6], (6,inf) are tagged, the four middle ones must be visited.
 Part C (history search, evaluator "history"): breadth-first enumeration of ALL sequences of length <= depth over
 {propose(bfgs), propose(diffev), add_evaluation(x, y[, err])} on fresh GpOptimiser objects (every history is rebuilt
 and replayed from the constructor), random starts scripted on the alphabet {0, 1/2, 1-}.  Invariants in every state, and in
@@ -68,6 +71,24 @@ MEAN_LIN = [0.8, -0.45]
 
 
 # ====================================================================================== part D: the lattice
+LADDER_LIN = [0.8, 0.15]
+LADDER_STEPS = [-3.0, -1.0, -0.25, 0.125, 0.25, 0.5, 0.75, 1.0, 1.5, 2.0, 3.0, 4.0, 6.0]
+LADDER_NEAR = [0.05, 0.2, -0.3]
+Z_EDGES = [-6.0, -3.0, 0.0, 3.0, 6.0]
+V_EDGES = [1e-6, 1e-3, 0.5]
+MIDDLE_BANDS = ["(-6,-3]", "(-3,0]", "(0,3]", "(3,6]"]
+
+
+def band_of(v, edges):
+    """label of the half-open band (e_k, e_k+1] that v lies in"""
+    lo = "-inf"
+    for e in edges:
+        if v <= e:
+            return "(%s,%g]" % (lo, e)
+        lo = "%g" % e
+    return "(%s,inf)" % lo
+
+
 def branch_of(z):
     if abs(z + 3.0) <= 1e-6:
         return "switch"
@@ -83,6 +104,12 @@ def gp_data(case):
     X = np.array([[BASE[r][c] + off for c in cols] for r in rows])
     y = np.array([sum(np.sin(1.3 * BASE[r][c] + i) for i, c in enumerate(cols)) + 0.3 * BASE[r][cols[0]] for r in rows])
     yerr = None if case["noise"] == "none" else (np.full(n, 0.1) if case["noise"] == "uniform" else np.array([[0.02, 0.3, 0.1, 0.05, 0.2, 0.01][j % 6] for j in range(n)]))
+    if case.get("ladder"):
+        # unsteered configurations: data on a rising trend along the first coordinate (the largest value sits at the edge of the
+        # data), "accurate" = measured to 1e-3 (2e-3 for every other point)
+        y = 0.3 + 0.9 * X[:, 0] + 0.12 * np.sin(2.1 * X[:, 0] + g) + (0.2 * X[:, 1] if d == 2 else 0.0)
+        if case["noise"] == "accurate":
+            yerr = np.array([1e-3 * (1 + j % 2) for j in range(n)])
     # units: the same problem with x measured in units of 1/xscale and y (and its errors) in units of 1/yscale
     xs, ys = float(case.get("xscale", 1.0)), float(case.get("yscale", 1.0))
     return X * xs, y * ys, (None if yerr is None else yerr * ys)
@@ -122,10 +149,15 @@ def ev_acq(case):
     X, y, yerr = gp_data(case)
     xs, ys = float(case.get("xscale", 1.0)), float(case.get("yscale", 1.0))
     a, ls = HP[case["hp"]]
-    a, ls = a * ys, [l * xs for l in ls[:d]]  # amplitude in units of y, length-scales in units of x
+    a, ls = a * ys * float(case.get("amp", 1.0)), [l * xs for l in ls[:d]]  # amplitude in units of y, length-scales in units of x
     kt = [float(np.log(a))] + [float(np.log(l)) for l in ls]
     lin = [v * ys / xs for v in MEAN_LIN[:d]] if mk == "L" else []
     c04 = 0.4 * ys  # the constant of the mean function where it is not used for steering
+    ladder = case.get("ladder")
+    if ladder:
+        # the mean function follows the trend of the data (LinearMean: slope 0.8 of the data's 0.9) or sits at their average (ConstantMean)
+        lin = [v * ys / xs for v in LADDER_LIN[:d]] if mk == "L" else []
+        c04 = float((0.3 * ys + 0.8 * ys / xs * X[:, 0].mean()) if mk == "L" else y.mean())
     ymax0 = float(np.max(y))
     kappa = case.get("kappa", 2.0)
     ref = R.RefGP(X.tolist(), y.tolist(), ["SE"], kt, mk, [0.0] + lin, None if yerr is None else yerr.tolist())
@@ -161,6 +193,18 @@ def ev_acq(case):
         ("outside", X.max(axis=0) + 0.75 * lsa),
     ]
     zs = case["zs"] if kind == "EI" else [None]
+    if ladder:
+        # NO steering: a ladder of query points along the first coordinate, from 3 length-scales below the data to 6 above, through
+        # the data (other coordinates at the centroid); the improvement z-score is whatever the model gives there
+        zs = [None]
+        top = int(np.argmax(y))
+        queries = []
+        for t in LADDER_STEPS:
+            q = X.mean(axis=0).copy()
+            q[0] = (X[:, 0].max() + t * lsa[0]) if t > 0 else (X[:, 0].min() + t * lsa[0])
+            queries.append(("ladder%+g" % t, q))
+        for t in LADDER_NEAR:  # next to the accurately measured / largest datum
+            queries.append(("top%+g" % t, X[top] + t * lsa * np.array([1.0, 0.5])[:d]))
     for qname, q in queries:
         ql = q.tolist()
         # Steering z = (mu(q) - max(y)) / sigma(q) to a target through the PUBLIC inputs.  sigma(q) depends on neither
@@ -296,7 +340,17 @@ def ev_acq(case):
             noise = 2 * tvN + ivB
 
             zref = float((P["mu"] - R.M(ymax)) / mp.sqrt(P["var"]))
-            br = branch_of(zt) if kind == "EI" else "all"
+            br = branch_of(zt) if (kind == "EI" and not ladder) else "all"
+            if ladder:
+                # own keys; the band is the lattice label of the situation, taken from the reference model
+                if kind == "EI":
+                    band = "z=" + band_of(zref, Z_EDGES)
+                elif kind == "UCB":
+                    band = "mu/sigma=" + band_of(float(P["mu"] / mp.sqrt(P["var"])), Z_EDGES)
+                else:
+                    band = "var/amplitude^2=" + band_of(float(P["var"]) / a**2, V_EDGES)
+                br = "unsteered," + band
+                tags.add(f"unsteered,{kind},{band}")
             info = dict(query=qname, point=ql, z=zref, mean_constant=t0, y=yq.tolist(), steering=knob)
             pre = f"value/{aname}/{br}"
             # opt_func is the objective that is minimised: -ln EI, -UCB, -variance
@@ -1176,6 +1230,31 @@ def run(ck):
             cases.append(dict(base, acq="UCB", kappa=kappa))
         cases.append(dict(base, acq="MV"))
     ck.run_cases("acq", cases, chunk=1)
+    # ---- unsteered configurations: the z-score (EI), mu/sigma (UCB) and variance / prior variance (MV) are whatever the model gives along a
+    # ladder of query points; data on a trend, LinearMean extrapolating it beyond the data / ConstantMean next to accurately measured points
+    lcases = []
+    for d in (1, 2):
+        ns = [4, 6] if (d == 1 or not quick) else [4]
+        lhps = ["unit", "short"] if quick else hps
+        lnoise = ["uniform", "accurate"] if quick else ["uniform", "accurate", "none"]
+        amps = [0.25, 0.1] if quick else [0.25, 0.1, 0.03]
+        for n, hp, noise, mean, amp, g in itertools.product(ns, lhps, lnoise, ["L", "C"], amps, designs):
+            base = {"d": d, "n": n, "design": g, "hp": hp, "noise": noise, "mean": mean, "shift": seed % 4, "ladder": "trend", "amp": amp}
+            lcases.append(dict(base, acq="EI", zs=[]))
+            for kappa in ((2.0,) if quick else (2.0, 0.0)):
+                lcases.append(dict(base, acq="UCB", kappa=kappa))
+            lcases.append(dict(base, acq="MV"))
+    lres = ck.run_cases("acq", lcases, chunk=1)
+    visited = {}
+    for r in lres:
+        for t in r.get("tags", ()):
+            if isinstance(t, str) and t.startswith("unsteered,"):
+                _, k_, b_ = t.split(",", 2)
+                visited.setdefault(k_, set()).add(b_)
+    missing = [b for b in MIDDLE_BANDS if "z=" + b not in visited.get("EI", set())]
+    if missing and not any(r["fails"] for r in lres):
+        raise HarnessError(f"unsteered ladder is vacuous: no query point with the improvement z-score in {missing}")
+    ck.extra["unsteered_ladder"] = {"cases": len(lcases), "library_calls": int(sum(r.get("n", 0) for r in lres)), "bands_visited": {k_: sorted(v) for k_, v in visited.items()}}
     # ---- units far from 1: the same lattice with x (data, query points, length-scales, bounds of nothing: no optimiser here) multiplied by xscale and
     # y, y_err, amplitude and mean-function parameters by yscale; every oracle of part D (all tolerances are relative to the problem's own scales)
     scales = [(1.0, 1e-9), (1.0, 1e-6), (1.0, 1e6), (1e-6, 1.0), (1e6, 1.0)] + ([] if quick else [(1e-6, 1e6), (1e6, 1e-6), (1e6, 1e-9)])
@@ -1292,6 +1371,12 @@ def run(ck):
     ck.rule = (
         "Part D: cartesian product d{1,2} x n{3,6} x design x hyper-parameter pattern{unit,aniso,short} x noise x mean{Constant,Linear} x 3 query points x "
         "acquisition{EI x z-lattice, UCB kappa{2,0}, MaxVariance}; a tag is one (acquisition, GP configuration, query, z) compared with all oracles. "
+        "Unsteered ladder (same evaluator and ALL its oracles - ln EI / EI relative to the 50-digit definition on the real predictive (mu, sigma) and on the reference GP, optvalue, gradient = Richardson derivative of the real opt_func "
+        "and reference gradient; keys value|optvalue|optgrad/<Acq>/.../unsteered,<band>/...): data on a rising trend along the first coordinate, d{1,2} x n{4,6} x hyper-parameter pattern x amplitude factor {0.25,0.1[,0.03]} x noise "
+        "{uniform 0.1, accurately measured 1e-3/2e-3[, none]} x mean {LinearMean following the trend and extrapolating it, ConstantMean at the data average} x 16 query points (a ladder from 3 length-scales below the data to 6 "
+        "above along the first coordinate, and 3 points next to the largest datum) x acquisition {EI, UCB, MaxVariance}; NO steering: the improvement z-score is what the model gives; a tag 'unsteered,<Acq>,<band>' is one visited band of "
+        "z = (mu - y_max)/sigma (EI), mu/sigma (UCB) in (-inf,-6], (-6,-3], (-3,0], (0,3], (3,6], (6,inf), or of variance / prior variance (MaxVariance) in (-inf,1e-6], (1e-6,1e-3], (1e-3,0.5], (0.5,inf); the run is a harness error "
+        "unless EI visits the four middle z bands. "
         "Units far from 1 (keys .../units-far-from-1, slack names scaled/...): the same evaluator and ALL its oracles with (x, query points, length-scales) multiplied by xscale and (y, y_err, amplitude, "
         "mean-function parameters) by yscale for (xscale, yscale) in {(1,1e-9), (1,1e-6), (1,1e6), (1e-6,1), (1e6,1)} (thorough: also (1e-6,1e6), (1e6,1e-6), (1e6,1e-9)) x d{1,2} x acquisition{EI x z-lattice, "
         "UCB kappa{2,0}, MaxVariance} x (quick: one rotating (n, hyper-parameter pattern, noise, mean); thorough: their product). "
@@ -1337,6 +1422,8 @@ def run(ck):
     ck.assume("boundary designs: 'every proposed evaluation lies inside the search bounds' is claimed for whatever the acquisition's optimum is, including a boundary point that is already a row of the data (noise-free or noisy); "
               "nothing is claimed about WHICH point is proposed")
     ck.assume("continuous inputs are represented by the listed finite lattice (d<=2, n<=6, SquaredExponential kernel, z in [-40, 8]); z is steered through public inputs only (the mean-function constant, or inside the data hull the value of the incumbent data point); targets above the ceiling reachable inside the hull and points whose variance is below resolution are skipped and counted")
+    ck.assume("unsteered ladder: the bands of z / mu/sigma / relative variance that are visited are reported (coverage.unsteered_ladder); a tail shortcut of an acquisition function that is only taken in a band no configuration of the ladder "
+              "or of the steered z-lattice reaches is not seen; EI is compared on the logarithmic scale (= relative) wherever ln EI > -700, below that only 0 <= EI <= 1e-300 is demanded")
     ck.assume("ExpectedImprovement accuracy: the far-tail form's rounding error everywhere, and additionally the documented form sigma(z F + P) evaluated in doubles wherever that form's own error is below 1e-10 relative (z >~ -3.2); the location of the switch is not prescribed")
     ck.assume("scipy's differential_evolution draws from numpy's global RandomState, which is seeded per call; for it only 'the proposal lies in the bounds' and the data/incumbent invariants are claimed. The random starts of the bfgs route (numpy.random.random imported by name into inference.gp.acquisition and inference.gp.regression) are scripted: every call returns the constant 0, 1/2 or 1-, or cycles through them")
     ck.assume("history-independence probes: the acquisition after any history must equal (1e-12 relative; against max(|.|, 1) for the O(1) sums -ln EI and mean + kappa sigma) that of a fresh "
